@@ -67,7 +67,7 @@ func init() {
 func init() {
 	specs["C15"] = &spec{
 		LevelText:   "rapid-generated TL1 schemas written as 1..3 files (file names sorting differently from creation order) and the repository's schema sets, for each output language (tl2gen: go, go --split-internal, canonical, tlo with a fixed non-zero timestamp, tljson.html, php; tlgen: cpp, php) and drawn Go options: the generator is run in three fresh processes - GOMAXPROCS 1..3 with the files in order, GOMAXPROCS 3..16 with the files listed in reverse order or the containing directory listed instead, and the first configuration again; all output trees must be byte-identical (path -> content), and exit codes must agree.",
-		LevelNote:   "Each run is a new process, so Go's per-process map iteration seeds differ between the runs. Trusted: sha256 of the trees.",
+		LevelNote:   "Each run is a new process, so Go's per-process map iteration seeds differ between the runs. Besides the random cases every repository / kitchen-sink schema set is generated for go, go --split-internal and cpp on every run (enumerated, not drawn). Trusted: sha256 of the trees.",
 		Technique:   "property-based testing (rapid): metamorphic relation (same schema, different schedule / map seed / input listing => identical output) through the real CLIs",
 		Rule:        "non-trivial iff >= 2 input files or >= 20 output files; distinct by (schema, language, options, configurations); classes per language",
 		Assumptions: []string{"--schemaTimestamp=0 is documented as 'now' and is never used", "a schema rejected by a back end (php/cpp have their own restrictions) must be rejected identically in all runs"},
